@@ -261,7 +261,7 @@ theorem plRT_of_inlRT (L : Nat) (i : Inline Bytes) (h : InlRT L i) (hnp : ∀ e,
   have hx := exprRT_inline L i h hnt
   refine ⟨by rw [htxt]; rfl, getLast?_of_snoc (pre := 123 :: 32 :: (inlineText L i ++ [32])) (by rw [htxt]; simp),
     fun w nl hw => ?_, fun s p n hs hat hn => ?_⟩
-  · obtain ⟨hb1, hw1⟩ := ws_writeTidy hw [123, 32] (by decide)
+  · obtain ⟨hb1, hw1⟩ := wsc_writeTidy hw [123, 32] (by decide) (by decide)
     obtain ⟨w1, hs1, hb2, hw2⟩ := h.ser _ hw1
     obtain ⟨hb3, hw3⟩ := ws_writeTidy hw2 [32, 125] (by decide)
     refine ⟨w1.writeLiteral [32, 125], by rw [hser, hs1]; rfl, ?_, hw3⟩
@@ -291,7 +291,7 @@ theorem plRT_double (L : Nat) (e : Expr Bytes) (h : ExprRT L e) : PlRT L (.inlin
   refine ⟨by rw [htxt]; rfl,
     getLast?_of_snoc (pre := 123 :: 123 :: 32 :: (innerText L e ++ [32, 125])) (by rw [htxt]; simp),
     fun w nl hw => ?_, fun s p n hs hat hn => ?_⟩
-  · obtain ⟨hb1, hw1⟩ := ws_writeTidy hw [123, 123, 32] (by decide)
+  · obtain ⟨hb1, hw1⟩ := wsc_writeTidy hw [123, 123, 32] (by decide) (by decide)
     obtain ⟨w1, hs1, hb2, hw2⟩ := h.ser _ [32, 125, 125] hw1 (by decide)
     refine ⟨w1.writeLiteral [32, 125, 125], by simp [serElement, hs1, lit_dbl_lbrace, lit_dbl_rbrace], ?_, hw2⟩
     rw [hb2, hb1, htxt]
@@ -331,7 +331,7 @@ theorem plRT_of_select (L : Nat) (sel : Inline Bytes) (vs : List (Variant Bytes)
   refine ⟨by rw [htxt]; rfl,
     getLast?_of_snoc (pre := 123 :: 32 :: innerText L (.select sel vs)) (by rw [htxt]; simp),
     fun w nl hw => ?_, fun s p n hs hat hn => ?_⟩
-  · obtain ⟨hb1, hw1⟩ := ws_writeTidy hw [123, 32] (by decide)
+  · obtain ⟨hb1, hw1⟩ := wsc_writeTidy hw [123, 32] (by decide) (by decide)
     obtain ⟨w1, hs1, hb2, hw2⟩ := h.ser _ [125] hw1 (by decide)
     refine ⟨w1.writeLiteral [125], by simp [serElement, hs1], ?_, hw2⟩
     rw [hb2, hb1, htxt]
